@@ -289,6 +289,29 @@ def check_state(ctx, st, idx, pid='C06'):
         except Exception as ex:  # noqa
             ctx.violation(sig + f'frame-attributes-raises|{kindsig(r)}|{type(ex).__name__}', f'{ex!r}', case)
             return True
+    # an ellipse / rectangle (annulus) given in another celestial frame than the image's - same centre on the sky, same sizes, the angle
+    # reduced by the position angle its frame's north makes with the image frame's north there (measured with astropy alone) - is the same
+    # region and has the same pixel image (same regime as above)
+    if r['k'] in ('ellipse', 'rectangle', 'eannulus', 'rannulus') and conf[0] != 'fk4' and not coarse:
+        import astropy.units as u
+        try:
+            with warnings.catch_warnings():
+                warnings.simplefilter('ignore')
+                other_frame = 'galactic' if sky.center.frame.name != 'galactic' else 'icrs'
+                cr = sky.center.transform_to(other_frame)
+                delta = sky.center.position_angle(cr.directional_offset_by(0 * u.deg, 2 * u.arcsec).transform_to(sky.center.frame))
+                kw = {pn: getattr(sky, pn) for pn in sky._params}
+                kw['center'] = cr
+                # angles are counted counter-clockwise IN THE IMAGE: on a mirrored image the turn between the two norths has the other sign
+                kw['angle'] = sky.angle - w['parity'] * delta
+                other = type(sky)(**kw, meta=sky.meta.copy(), visual=sky.visual.copy()).to_pixel(wcs)
+            why = close_pix(other, back, 1e-6, 30.0)
+            if why:
+                ctx.violation(sig + f'other-frame|{kindsig(r)}', f'the same sky region given in {other_frame} (angle relative to that frame\'s north, counted counter-clockwise in the image) has another pixel image: {why}', case)
+                return True
+        except Exception as ex:  # noqa
+            ctx.violation(sig + f'other-frame-raises|{kindsig(r)}|{type(ex).__name__}', f'{ex!r}', case)
+            return True
     # sky -> pixel -> sky starting from a sky compound built directly, with its own explicitly empty meta
     if r['k'] == 'compound':
         import regions as R
@@ -488,6 +511,12 @@ def random_walks(ctx):
                          lambda: R.PolygonPixelRegion(PixCoord([c.x, c.x + 9, c.x + 3], [c.y, c.y + 2, c.y + 11]), meta=meta),
                          lambda: R.PointPixelRegion(c, meta=meta), lambda: R.LinePixelRegion(c, PixCoord(c.x + 5, c.y - 7), meta=meta)])
         reg = mk()
+        if t % 5 == 3:
+            # a traced contour a few hundred pixels out: consecutive vertices, and the last and the first one, a few thousandths of a
+            # pixel apart (equal under a relative tolerance of 1e-5, yet different vertices: none may be dropped or merged)
+            fx, fy = rnd.choice([-1, 1]) * rnd.uniform(150, 300), rnd.choice([-1, 1]) * rnd.uniform(150, 300)
+            d = rnd.choice([2.0 ** -11, 2.0 ** -9, 0.0025, 0.015])
+            reg = R.PolygonPixelRegion(PixCoord([fx, fx + 9, fx + 9 + d, fx + 9, fx + 3, fx + d], [fy, fy + 2, fy + 2 + d, fy + 8, fy + 11, fy - d]), meta=meta)
         if rnd.random() < 0.3:
             reg = R.CompoundPixelRegion(reg, R.CirclePixelRegion(PixCoord(c.x + 3, c.y), 6.0), rnd.choice(list(OPS.values())), meta=R.RegionMeta(meta))
         log = []
